@@ -156,6 +156,18 @@ func (g *Gen) assert(s string) {
 	}
 }
 
+// declareEntriesPair: a pair sort (values array, presence array) used by the specification
+// builtin entries(m); equality of pairs is equality of both components.
+func (g *Gen) declareEntriesPair(vsort, hsort Sort) {
+	name := quote("Entries:" + string(vsort))
+	if g.declared[name] {
+		return
+	}
+	g.declared[name] = true
+	ctor := quote("entries:" + string(vsort))
+	g.dtDecls = append(g.dtDecls, fmt.Sprintf("(declare-datatypes ((%s 0)) (((%s (%s %s) (%s %s)))))", name, ctor, quote("ev:"+string(vsort)), vsort, quote("eh:"+string(vsort)), hsort))
+}
+
 // sortedArrNames: the registered heap arrays in a fixed order.
 func (g *Gen) sortedArrNames() []string {
 	var ks []string
@@ -278,7 +290,12 @@ func (g *Gen) structSort(t types.Type, u *types.Struct) Sort {
 
 func (g *Gen) structAcc(t types.Type, i int) string {
 	u := t.Underlying().(*types.Struct)
-	return quote("S:" + typeKey(t) + "." + u.Field(i).Name())
+	name := u.Field(i).Name()
+	if name == "_" {
+		// several blank fields may occur in one struct: accessor names must differ
+		name = fmt.Sprintf("_%d", i)
+	}
+	return quote("S:" + typeKey(t) + "." + name)
 }
 
 func (g *Gen) structMk(t types.Type, fields []string) string {
